@@ -30,6 +30,7 @@ Binding
       field name must agree in every package.
 """
 import json
+import os
 import sys
 
 sys.path.insert(0, str(__import__("pathlib").Path(__file__).resolve().parent.parent))
@@ -326,20 +327,21 @@ def main(tier, seed):
         "type identity of field types is equality of type codes of a small closed language {int, string, *int, []string, named, type parameter instantiated with int}",
         "all shapes of one structhash source live in one package; cross-package identity is exercised by the real builds with exported names only (unexported names from different packages are never identical)"]
     rng = chk.rng
+    tlc_workers = int(os.environ.get("VERIF_TLC_WORKERS", "4"))
 
     # ---- 1. the model: invariants over all pairs + table
     cfgs = ["StructId-quick.cfg"] if tier == "quick" else ["StructId-thorough3.cfg", "StructId-thorough.cfg"]
     tables = []
     for cfg in cfgs:
         work = mkscratch("c15-tlc")
-        r = tlc_must_pass("StructId", cfg, workdir=work, timeout=2400, jvm=["-Xmx8g"])
+        r = tlc_must_pass("StructId", cfg, workdir=work, timeout=2400, jvm=["-Xmx8g"], workers=tlc_workers)
         chk.add_tlc(r)
         tables.append(json.loads((work / "structid_table.json").read_text()))
         log(f"TLC {cfg}: {r.distinct} distinct states in {r.wall:.0f}s, {len(tables[-1]['shapes'])} shapes")
     # the invariants bite: both modelled mutants are rejected
     sens = {}
     for cfg, want in (("StructId-mutant-tags.cfg", "IdenticalImpliesSameSalt"), ("StructId-mutant-types.cfg", None)):
-        r = tlc("StructId", cfg, workdir=mkscratch("c15-tlc-mut"), timeout=600)
+        r = tlc("StructId", cfg, workdir=mkscratch("c15-tlc-mut"), timeout=600, workers=tlc_workers)
         sens[cfg] = r.violated
         if not r.violated:
             raise Inconclusive(f"TLC accepts the modelled mutant {cfg}: the invariants do not bite\n{r.out[-1500:]}")
